@@ -136,6 +136,9 @@ func (w *World) Refund(list [][2]interface{}) {
 		parts = append(parts, hexAddr(a), v.String())
 	}
 	service.RefundManagerImpl.Add(map[uint64]types.RefundInfoList{h: rl}, w.adb)
+	for _, ri := range rl.List {
+		ri.Value.SetInt64(-424242) // retention: the escrow must not alias the caller's big.Int
+	}
 	service.RefundManagerImpl.CheckAndMove(h, w.adb)
 	line := "refund " + strconv.Itoa(len(list))
 	if len(parts) > 0 {
